@@ -733,6 +733,18 @@ func (e *Engine) jump(st *State, f *Frame, to *ssa.BasicBlock) {
 	f.prev, f.blk, f.ip = f.blk, to, 0
 	f.iter[to]++
 	if f.iter[to] > e.MaxIter {
+		if !e.tolerant {
+			// a loop that does not terminate within the derived bound: candidate violation of "no unbounded
+			// loop"; the driver replays the model natively under a watchdog and only a real hang is reported
+			pos := token.NoPos
+			if len(to.Instrs) > 0 {
+				pos = to.Instrs[0].Pos()
+			}
+			if pos == token.NoPos && f.fn.Pos() != token.NoPos {
+				pos = f.fn.Pos()
+			}
+			e.report(st, Bool(true), fmt.Sprintf("loop in %s did not terminate within %d iterations", f.fn.Name(), e.MaxIter), pos, "unwind")
+		}
 		panic(unsupported{fmt.Sprintf("UNWIND bound %d exceeded in %s block %d", e.MaxIter, f.fn.Name(), to.Index)})
 	}
 	// phis are evaluated simultaneously
